@@ -738,6 +738,17 @@ class ProtoClassMetadata:
         return field_cls
 
 
+def _equal_up_to_nan(a: Any, b: Any) -> bool:
+    """Equality that treats nan as equal to nan, also inside repeated and map fields."""
+    if isinstance(a, float) and isinstance(b, float):
+        return a == b or (math.isnan(a) and math.isnan(b))
+    if isinstance(a, list) and isinstance(b, list):
+        return len(a) == len(b) and all(map(_equal_up_to_nan, a, b))
+    if isinstance(a, dict) and isinstance(b, dict):
+        return a.keys() == b.keys() and all(_equal_up_to_nan(a[k], b[k]) for k in a)
+    return a == b
+
+
 class Message(ABC):
     """
     The base class for protobuf messages, all generated messages will inherit from
@@ -805,12 +816,7 @@ class Message(ABC):
                 # We consider two nan values to be the same for the
                 # purposes of comparing messages (otherwise a message
                 # is not equal to itself)
-                if (
-                    isinstance(self_val, float)
-                    and isinstance(other_val, float)
-                    and math.isnan(self_val)
-                    and math.isnan(other_val)
-                ):
+                if _equal_up_to_nan(self_val, other_val):
                     continue
                 else:
                     return False
